@@ -130,3 +130,8 @@ def run(F, res, tier):
     pre = [callee(t2) for bb2, t2 in st.calls() if st.dominates(bb2, b)]
     res.ob("B2", "statement/prefixes", "attributes and `pub` are consumed before the dispatch, so `pub fn`/`@external fn` restart too",
            "syntax::parser::attributes" in pre and PM.P + "eat" in pre, where=st.loc(), how="calls before dispatch: %s" % [p.rsplit("::", 1)[-1] for p in pre if p])
+
+
+def thorough(F, res):
+    from lib import pcache as _pc
+    _pc.crosscheck(F, res)
